@@ -29,6 +29,12 @@ def lower (n : Name) : Name := n.map toLower
 /-- bytes of an ASCII string literal (used for keywords in the models and in the driver) -/
 def bytes (s : String) : Name := s.toUTF8.toList.map (·.toNat)
 
+/-- keyword spellings as literal byte lists (kernel-reducible, unlike `bytes "…"`) -/
+def kwFalse : Name := [102, 97, 108, 115, 101]
+def kwTrue : Name := [116, 114, 117, 101]
+def kwPrivate : Name := [112, 114, 105, 118, 97, 116, 101]
+def kwLine : Name := [35, 108, 105, 110, 101]
+
 def digitVal (c : Nat) : Nat := c - 48
 def hexVal (c : Nat) : Nat :=
   if isDigit c then c - 48 else if decide (97 ≤ c) then c - 87 else c - 55
